@@ -744,6 +744,7 @@ class Interp:
         self.bounds: dict = self.ops.bounds  # z3 term id of a symbolic Int input -> (lo, hi) inclusive, from the obligation's declared ranges
         self.while_bound = while_bound
         self.draws: list[DrawSite] = []
+        self.categoricals: list = []  # (key, [logit terms], path condition) of every Gumbel-max categorical draw
         self.pc: list = []  # path condition stack
         self.functions: set[str] = set()
         self.n_eqns = 0
@@ -1197,6 +1198,8 @@ class Interp:
         out = obj(t.shape[:-1])
         for idx in np.ndindex(*t.shape[:-1]):
             row = t[idx]
+            if op == "gt":
+                self._record_categorical(row)
             best, bi = row[0], 0
             for j in range(1, row.shape[0]):
                 c = self.ops.cmp(op, row[j], best, k)  # strict: first occurrence wins
@@ -1204,6 +1207,25 @@ class Interp:
                 bi = self.ops.ite(c, j, bi, "i")
             out[idx] = bi
         return [out]
+
+    def _record_categorical(self, row):
+        """argmax_k(logits_k + gumbel(key, k)) is a categorical draw (Gumbel-max, as jax.random.categorical does it):
+        remember (key, logits, path condition) so that obligations can inspect the logits of every categorical site."""
+        logits, key = [], None
+        for j, e in enumerate(row):
+            e = lower(e)
+            if not (is_sym(e) and z3.is_app_of(e, z3.Z3_OP_ADD) and e.num_args() == 2):
+                return
+            a, b = e.arg(0), e.arg(1)
+            g, l = (a, b) if (z3.is_app(a) and a.decl().name() == "draw_gumbel") else (b, a)
+            if not (z3.is_app(g) and g.decl().name() == "draw_gumbel"):
+                return
+            if key is None:
+                key = g.arg(0)
+            elif not key.eq(g.arg(0)):
+                return
+            logits.append(l)
+        self.categoricals.append((key, logits, self._pc()))
 
     def p_argmax(self, eqn, ins):
         return self._arg_reduce(eqn, ins, "gt")
